@@ -102,6 +102,28 @@ def apalache_part(pid, tier, out):
     out.setdefault("extra_cov", {})["apalache_inductive_invariant"] = all(x["holds"] for x in res)
 
 
+def seg_part(pid, tier, out):
+    """interrupted executions (start(k), resume(u) ...): the property's clauses
+    on the traces of the pause/resume batch"""
+    if core.VERIF not in sys.path:
+        sys.path.insert(0, core.VERIF)
+    from harness import pairs
+    res, d = core.pair_batch("segpairs", tier, lambda t, s: pairs.seg_pairs(t, s, core.NCPU))
+    mine = [v for v in (res.get("trace_verdicts") or []) if v["kind"] == "L1" and v["what"].startswith(pid + ".")]
+    seen = set()
+    for v in mine:
+        if v["gid"] in seen or len(seen) >= 10:
+            continue
+        seen.add(v["gid"])
+        path = core.write_replay(pid, "segtrace", {"kind": "note", "property": pid, "verdict": v})
+        out["violations"].append(("clause %s fails in an interrupted execution (pause/resume) at event %d" % (v["what"], v["l"]), path))
+    out["extra_traces"] = out.get("extra_traces", 0) + res.get("ntraces", 0)
+    out.setdefault("extra_cov", {})["interrupted_traces_validated"] = res.get("ntraces", 0)
+
+
+EXTRA.setdefault("C12", []).append(seg_part)
+EXTRA.setdefault("C13", []).append(seg_part)
+
 for _p in API_INVS:
     EXTRA.setdefault(_p, []).append(api_part)
 EXTRA.setdefault("C02", []).append(apalache_part)
